@@ -419,15 +419,18 @@ class Emitter:
             raise ExtractError('%s: enumerate_loop %d but only %d loops' % (fnid, k, len(loops)))
         kw, br, kind = loops[k - 1]
         header = body[kw:br]
-        mm = re.match(r'for\s*\(\s*(\w+)\s*,\s*(\w+)\s*\)\s+in\s+(.+?)\.iter\(\)\s*\.enumerate\(\)\s*$', header.strip(), re.S)
+        mm = re.match(r'for\s*\(\s*(\w+)\s*,\s*(\w+)\s*\)\s+in\s+(.+?)\.iter\(\)\s*(?:\.take\((.+)\)\s*)?\.enumerate\(\)\s*$', header.strip(), re.S)
         if kind != 'for' or not mm:
-            raise ExtractError('%s: loop %d is not of the form `for (i, x) in E.iter().enumerate()` (R6 not applicable)' % (fnid, k))
+            raise ExtractError('%s: loop %d is not of the form `for (i, x) in E.iter()[.take(K)].enumerate()` (R6 not applicable)' % (fnid, k))
         i, x, e = mm.group(1), mm.group(2), ' '.join(mm.group(3).split())
+        take = ' '.join(mm.group(4).split()) if mm.group(4) else None
         close = match_close(masked, br)
         inner = masked[br + 1:close]
         if re.search(r'\bcontinue\b', inner):
             raise ExtractError('%s: loop %d contains `continue` (R6 not applicable)' % (fnid, k))
-        new = ('let mut %s: usize = 0;\n    while %s < %s.len() {\n        let %s = &%s[%s];' % (i, i, e, x, e, i)
+        # `.take(K)` with a pure bound K: the index additionally stays below K
+        cond = '%s < %s.len()' % (i, e) + (' && %s < %s' % (i, take) if take else '')
+        new = ('let mut %s: usize = 0;\n    while %s {\n        let %s = &%s[%s];' % (i, cond, x, e, i)
                + body[br + 1:close].rstrip() + '\n        %s += 1;\n    }' % i)
         self.rules.add('R6')
         return body[:kw] + new + body[close + 1:]
